@@ -584,6 +584,13 @@ func cmdCheck(args []string) int {
 			// precondition / the lock discipline: claimed implicitly (otherwise a new bad call site would go unnoticed)
 			claimed = true
 		}
+		if !claimed && o.Kind == "chan" && o.Status != "discharged" && !noclaim(o.Name) && len(baseline) > 0 {
+			// a function declared `nonblocking` (it runs with locks held): a new channel send in its own body that cannot be
+			// shown to find buffer space is a violation, not an unclaimed attempt
+			if fc := prog.Contracts[o.Fn]; fc != nil && fc.NonBlocking {
+				claimed = true
+			}
+		}
 		if !claimed {
 			if *only == "" {
 				attempted = append(attempted, fmt.Sprintf("%s: %s %s", o.Name, o.Status, o.Detail))
